@@ -314,6 +314,7 @@ Replay(c, sub, existed, ver, n) ==
          retains |-> IF Dev("replay_retain_follows_rap") THEN {sub.o.rap} ELSE {TRUE},
          ids |-> {}, anyids |-> TRUE,
          t0 |-> 0, L |-> 0, orig |-> 0,      \* a replayed message starts a fresh lifetime: nothing is demanded (C12)
+         props |-> ret[t].props,
          opt |-> FALSE, carried |-> FALSE] : t \in {x \in DOMAIN ret : Match(sub.lv, ret[x].lv)}}
 
 \* SUBSCRIBE with the topics in order (ts: sequence of [n, share, lv, sys, qos, nl, rap, rh]); the broker owes a
@@ -404,9 +405,9 @@ Publication(src, m) ==
       idx  == ctr.pub + 1
       mk(x) == [key |-> x.key, tag |-> m.tag, topic |-> m.topic, src |-> src, idx |-> idx, qos |-> x.qos,
                 retains |-> x.retains, ids |-> x.ids, anyids |-> FALSE, opt |-> (x.qos = 0 /\ Closing(x.c)), carried |-> Closing(x.c),
-                t0 |-> m.ms, L |-> Lifetime(m), orig |-> m.msgexp]
+                t0 |-> m.ms, L |-> Lifetime(m), orig |-> m.msgexp, props |-> m.props]
       gmk(g) == [share |-> g[1], n |-> g[2], tag |-> m.tag, topic |-> m.topic, src |-> src, idx |-> idx,
-                 mqos |-> m.qos, retain |-> m.retain, t0 |-> m.ms, L |-> Lifetime(m), orig |-> m.msgexp,
+                 mqos |-> m.qos, retain |-> m.retain, t0 |-> m.ms, L |-> Lifetime(m), orig |-> m.msgexp, props |-> m.props,
                  members |-> {[c |-> s.c, qos |-> s.o.qos, rap |-> s.o.rap, id |-> s.o.id] :
                                 s \in {x \in subs : x.share = g[1] /\ x.n = g[2]}}]
   IN
@@ -417,7 +418,7 @@ Publication(src, m) ==
 RetainUpdate(m) ==
   IF ~m.retain THEN ret' = ret
   ELSE IF m.empty THEN ret' = [t \in DOMAIN ret \ {m.topic} |-> ret[t]]
-  ELSE ret' = Put(ret, m.topic, [tag |-> m.tag, qos |-> m.qos, lv |-> m.lv, sys |-> m.sys])
+  ELSE ret' = Put(ret, m.topic, [tag |-> m.tag, qos |-> m.qos, lv |-> m.lv, sys |-> m.sys, props |-> m.props])
 
 \* C13, inbound limits of a v5 connection: what makes the broker end the connection, with which reason codes
 AliasUsed(m) == m.alias # 0 \/ m.notopic
@@ -485,7 +486,7 @@ WillFire(c, topic, ms) ==
   /\ LET w == Wills[c].m IN
      Publication(c, [topic |-> w.topic, lv |-> w.lv, sys |-> w.sys, qos |-> w.qos, retain |-> w.retain, empty |-> FALSE,
                      tag |-> w.tag, pid |-> 0, dup |-> FALSE, alias |-> 0, notopic |-> FALSE, size |-> 0, fsize |-> 0,
-                     msgexp |-> 0, ms |-> ms])
+                     msgexp |-> 0, ms |-> ms, props |-> w.props])
   /\ aux' = [aux EXCEPT !.wills = [x \in DOMAIN Wills \ {c} |-> Wills[x]]]
   /\ UNCHANGED <<cfg, subs, conn, sess, ctl, ret, unack, infl, last>>
 
@@ -535,9 +536,15 @@ ExpiryOK(k, ob, p) ==
               THEN TRUE
               ELSE p.msgexp >= Max(1, Min(ob.orig, ob.L) - w - 1) /\ p.msgexp <= Max(1, ob.orig - w + 1))
 
+\* The application properties of a message (Payload Format Indicator, Content Type, Response Topic, Correlation Data,
+\* User Properties in order - one canonical string, "" = none) are forwarded unaltered to an MQTT 5 subscriber
+\* ([MQTT-3.3.2-4/15/16/17/18/20]); MQTT 3 has no properties.
+FwdProps(k, props) == IF conn[k].ver = 5 THEN props ELSE ""
+
 \* does obligation ob of session c explain the PUBLISH p read on k ?
 FitsOwed(c, k, ob, p) ==
   /\ ob.tag = p.tag /\ ob.topic = p.topic /\ ob.qos = p.qos /\ p.retain \in ob.retains
+  /\ p.props = FwdProps(k, ob.props)
   /\ IdsOK(k, p.ids, ob)
   /\ (p.dup => ob.carried)                 \* the first transmission has DUP = 0
   /\ OrderOK(c, ob, p.dup)
@@ -545,7 +552,7 @@ FitsOwed(c, k, ob, p) ==
 
 \* does the group obligation g explain it, c being member mb ?
 FitsGroup(c, k, g, mb, p) ==
-  /\ mb.c = c /\ g.tag = p.tag /\ g.topic = p.topic
+  /\ mb.c = c /\ g.tag = p.tag /\ g.topic = p.topic /\ p.props = FwdProps(k, g.props)
   /\ p.qos = Min(g.mqos, mb.qos) /\ p.retain = (g.retain /\ mb.rap)
   /\ (conn[k].ver = 5 => SeqToSet(p.ids) = {mb.id} \ {0}) /\ (conn[k].ver # 5 => p.ids = <<>>)
   /\ (p.dup \/ g.idx >= Get(last, <<c, g.src>>, 0))
